@@ -27,6 +27,80 @@ def synthetic_cases(rep, tier):
     return cases
 
 
+def dzone_events(rep, b, zones, rng, zmap, per_zone):
+    import datetime, re
+    from concurrent.futures import ThreadPoolExecutor
+    dz = b.tool("dzone")
+    E0 = datetime.datetime(1970, 1, 1)
+    pat = re.compile(r"^(never|(\d{4}-\d\d-\d\dT\d\d:\d\d:\d\d)([+-])(\d\d):(\d\d)) (->|<-) (never|(\d{4}-\d\d-\d\dT\d\d:\d\d:\d\d)([+-])(\d\d):(\d\d))\t")
+
+    def side(m, k):
+        if m.group(k) == "never":
+            return None
+        loc = (datetime.datetime.strptime(m.group(k + 1), "%Y-%m-%dT%H:%M:%S") - E0)
+        off = (int(m.group(k + 3)) * 3600 + int(m.group(k + 4)) * 60) * (1 if m.group(k + 2) == "+" else -1)
+        return loc.days * 86400 + loc.seconds - off, off
+    jobs = []
+    pick = [zp for zp in zones if len(tzif.TZif(zp[1]).trs) >= 3]
+    rng.shuffle(pick)
+    for name, path in pick[: 40 if per_zone < 20 else 400]:
+        z = tzif.TZif(path)
+        mt, mty = z.compacted()
+        # instants: between merged transitions, exactly at them, far beyond.  A job is kept only when the transition the MERGED TABLE says
+        # must be reported has offsets printable as +HH:MM on both sides (decided from the table, not from the tool's answer)
+        import bisect
+        cand = []
+        for i in range(1, len(mt)):
+            if -2_000_000_000 < mt[i] < 4_000_000_000:
+                cand += [mt[i] - 86400 * 3, mt[i], mt[i] + 1, mt[i] - 1]
+        cand = [t for t in cand if t > mt[0] + 86400]
+        rng.shuffle(cand)
+
+        def printable(j):
+            return 0 <= j < len(mt) and z.ofs[mty[j]] % 900 == 0 and (j == 0 or z.ofs[mty[j - 1]] % 900 == 0)
+        for t in cand[:per_zone] + [mt[-1] + 86400 * 4000]:
+            jp = bisect.bisect_right(mt, t) - 1          # previous (last at or before t)
+            jn = jp + 1
+            if jn >= len(mt) or printable(jn):
+                jobs.append((name, z, t, "next"))
+            if printable(jp):
+                jobs.append((name, z, t, "prev"))
+
+    def one(job):
+        name, z, t, d = job
+        iso = (E0 + datetime.timedelta(seconds=t)).strftime("%Y-%m-%dT%H:%M:%S")
+        p = core.run([dz, "--" + d, name, iso], timeout=20)
+        return job, p.stdout, p.returncode
+    out = []
+    with ThreadPoolExecutor(max_workers=core.NCPU) as ex:
+        for (name, z, t, d), txt, rc in ex.map(one, jobs):
+            m = pat.match(txt)
+            label = "dzone " + name
+            zmap[label] = z
+            if not m:
+                rep.disagree("dzone --%s: unreadable output" % d, {"zone": name, "t": t, "out": txt[:120], "rc": rc})
+                continue
+            a, bb = side(m, 1), side(m, 7)
+            # both sides denote the same instant, left in the offset before it, right in the offset from it on; before a zone's first
+            # transition the tool knows no offset and prints never for that side
+            vals = set(z.trs) | {t}
+            known = bb if bb is not None else a
+            tr = known[0] if known is not None else None
+            if tr is not None:
+                vals |= {tr, tr - 1}
+            order = sorted(vals)
+            rank = {v: i + 1 for i, v in enumerate(order)}
+            ev = {"e": "Trans", "dir": d, "t": rank[t], "tr": rank[tr] if tr is not None else (-2 if d == "next" else -1),
+                  "trm1": rank[tr - 1] if tr is not None else 1, "offb": a[1] if a is not None else 0, "offa": bb[1] if bb is not None else 0,
+                  "nob": a is None, "same": (a is None or bb is None or a[0] == bb[0]), "T": str(t), "out": txt.strip()[:100]}
+            if not ev["same"]:
+                rep.disagree("dzone --%s: the two sides denote different instants" % d, {"zone": name, "t": t, "out": txt[:120]})
+                continue
+            out.append([{"e": "Reset", "zone": label, "trs": [rank[x] for x in z.trs], "typ": list(z.typ), "ofs": list(z.ofs)}, ev])
+    rep.notes["dzone_runs"] = len(jobs)
+    return out
+
+
 def main(tier):
     rep = core.Report(PID, tier, "model_checking")
     b = core.Build("plain")
@@ -93,6 +167,8 @@ def main(tier):
                     execs.append(ev)
         runner.flush_hangs()
         runner.close()
+        # ---- dzone --next / --prev: the adjacent transitions of the merged table, with the offsets on both sides (tool level)
+        execs += dzone_events(rep, b, zones, rng, zmap, 12 if quick else 60)
         core.log("zones: %d files, %d queries, %d executions, hangs=%d" % (len(zones), runner.nq, len(execs), runner.drv.hangs))
         rep.notes["zone_files"] = len(zones)
         rep.notes["queries"] = runner.nq
